@@ -254,7 +254,61 @@ def _prep_tol(cycles, merge, tiny, close_slack=0.0):
     return out
 
 
+def _choice_match(ref_exact, out_cycles):
+    """Tie-band match without enumeration: contour i of the output must be a rotation of contour
+    i of the reference (cleaned under the nominal rounding) with every coordinate among the
+    admissible roundings of the exact value.  Handles any number of near-tie coordinates (e.g.
+    two 45-degree references that compose to a quarter turn of half-integer offsets); does not
+    cover outputs in which the optimiser merged or dropped something."""
+    if len(ref_exact) != len(out_cycles):
+        return False
+    for (rs, rsegs), (gs, gsegs) in zip(ref_exact, out_cycles):
+        # nominal rounding decides which operations draw nothing
+        nom = R.round_cycle(rs, rsegs)
+        keep = []
+        cur = nom[0]
+        for sg_n, sg_e in zip(nom[1], rsegs):
+            if all(p == cur for p in sg_n[1:]):
+                continue
+            keep.append(sg_e)
+            cur = sg_n[-1]
+        closing = [("l", rs)] if keep and cur != nom[0] else []
+        ref_seq = keep + closing
+        got_seq = R.clean_cycle(gs, gsegs)
+        n = len(ref_seq)
+        if n != len(got_seq):
+            return False
+        if n == 0:
+            continue
+        ok = False
+        for k in range(n):
+            good = True
+            for i in range(n):
+                a, b = ref_seq[i], got_seq[(i + k) % n]
+                if a[0] != b[0] or len(a) != len(b):
+                    good = False
+                    break
+                for p, q in zip(a[1:], b[1:]):
+                    if q[0] not in R.round_choices(p[0]) or q[1] not in R.round_choices(p[1]):
+                        good = False
+                        break
+                if not good:
+                    break
+            if good:
+                ok = True
+                break
+        if not ok:
+            return False
+    return True
+
+
 def _tolerant_int_match(ref_exact, out_cycles, optimize):
+    if _choice_match(ref_exact, out_cycles):
+        return True
+    return _tolerant_int_match_enum(ref_exact, out_cycles, optimize)
+
+
+def _tolerant_int_match_enum(ref_exact, out_cycles, optimize):
     """Accept either neighbour for every coordinate inside the tie band.  The alternatives are
     enumerated per contour (ties of different contours are independent: <= 2^10 per contour),
     then the contour sequences are aligned in order; a contour whose rounding draws nothing may be
@@ -424,6 +478,35 @@ def run(case):
                         R._flat(R.canon_cycle(cl)) if cl else [])
             ref = sorted(ref, key=lambda c: key(R.round_cycle(*c)))
             out = sorted(out, key=key)
+            # a coordinate on a rounding boundary may differ by one between the two sides and
+            # change the sort key: re-align `out` to `ref` by nearest contour of equal structure
+
+            def nums(c):
+                k = key(c)
+                return k[0] or k[1]
+            rk = [nums(R.round_cycle(*c)) for c in ref]
+            ok_ = [nums(c) for c in out]
+            if len(rk) == len(ok_):
+                used, order = set(), []
+                for a in rk:
+                    best, bj = None, None
+                    for j, b in enumerate(ok_):
+                        if j in used or len(a) != len(b):
+                            continue
+                        if any((x[0] != y[0]) for x, y in zip(a, b)) or any(
+                                x[0] == 0 and x[1] != y[1] for x, y in zip(a, b)):
+                            continue
+                        dev = max((max(abs(x[1][0] - y[1][0]), abs(x[1][1] - y[1][1]))
+                                   for x, y in zip(a, b) if x[0] == 1), default=0)
+                        if best is None or dev < best:
+                            best, bj = dev, j
+                    if bj is None:
+                        order = None
+                        break
+                    used.add(bj)
+                    order.append(bj)
+                if order is not None:
+                    out = [out[j] for j in order]
         ok, how, detail = compare_glyph(ref, out, tol, case["optimizeCFF"], npoints)
         bump("glyphs_checked")
         bump("how_" + how)
